@@ -110,8 +110,23 @@ def oracles(ctx: Ctx):
         if why:
             ctx.violation("failing-input", "oracle:tamper.real", {"unit": "tamper.real", "input": enc([roots, m])[-1200:], "why": why}, key="tamper.real")
             return
+    # key-aware forgeries (another plaintext under the same CEK, shortened tag, matching ICV length)
+    fb, cek, iv = hostile.valid_blob_with_cek(hid=4)
+    forged = 0
+    if cek is not None:
+        for what, m in hostile.key_aware_forgeries(fb, cek, iv, b"FORGED plaintext of another length!"):
+            n += 1
+            forged += 1
+            out = dec(run_impl(lambda a: e2e.impl_unprotect(a, symbolic=False), [roots, m]))
+            why = pred(None, out)
+            if why:
+                ctx.violation("failing-input", "oracle:tamper.real", {"unit": "tamper.real", "input": enc([roots, m])[-1200:], "why": why + " (" + what + ")"},
+                              key="tamper.real")
+                return
+    else:
+        ctx.notes.append("tamper.real: the CEK could not be observed at _client.cek_generate; key-aware forgeries skipped")
     ctx.oracle_runs += n
-    ctx.extra["tamper_real"] = {"flips": n, "still_same_plaintext": same}
+    ctx.extra["tamper_real"] = {"flips": n, "still_same_plaintext": same, "key_aware_forgeries": forged}
 
 
 def search(ctx: Ctx):
